@@ -354,9 +354,22 @@ structure OutPrims where
   /-- the sequence of `w.Write` calls that `writeObject(w, value)` makes (`Liquid/Std.lean`) -/
   chunks : GoVal → Res Cause (List Bytes)
 
+/-- `tw.WriteVerbatim(b)` (`render/trimwriter.go`, repair `fixes/verbatim-output-not-trimmed`):
+    `tw.trim = false; tw.Write(b); tw.Flush()` — output that is not literal text of the template
+    (the value of an object, the body of a raw block, what a tag writes: `TagNode.render` hands the tag
+    `verbatimWriter{w}`, here the `cycle` value and the output of an included file). In terms of the
+    other operations it is
+    `Write ""` (drops a pending right trim without applying it and flushes the text pending
+    before), `Write b` (flag clear, buffer empty: no call, `b` buffered unchanged), `Flush`
+    (`b` goes out at once, one call unless `b` is empty, so a later `TrimLeft` finds nothing of it);
+    the underlying calls and the failure points are those of the Go method. -/
+def writeVerbatimM (b : Bytes) : M Unit := do writeM []; writeM b; flushM
+
+/-- the `Write` calls of `writeObject` / of a raw node on `verbatimWriter{w}`: one `WriteVerbatim`
+    per chunk (none for nil or an empty array: then a pending right trim stays pending) -/
 def writeAllM : List Bytes → M Unit
   | [] => pure ()
-  | c :: cs => do writeM c; writeAllM cs
+  | c :: cs => do writeVerbatimM c; writeAllM cs
 
 /-! ## Loops -/
 
@@ -648,7 +661,8 @@ def renderNode (c : RCtx) : Node → M Status
       | some (cyc, rebuild) =>
         let n := cycleGet cyc group
         M.setVar nmForloop (rebuild (cycleSet cyc group (n + 1)))
-        writeM ((v0 :: rest).getD (n % (rest.length + 1)) v0)
+        -- `TagNode.render` hands the tag `verbatimWriter{w}`: what a tag writes is not literal text
+        writeVerbatimM ((v0 :: rest).getD (n % (rest.length + 1)) v0)
         pure .done)
   | .brk line => pure (.brk (wrapError c.cfg.path (.located (wrapError c.cfg.path (.plain .brk) ⟨line, true⟩)) ⟨line, true⟩))
   | .cont line => pure (.cont (wrapError c.cfg.path (.located (wrapError c.cfg.path (.plain .cont) ⟨line, true⟩)) ⟨line, true⟩))
@@ -663,7 +677,7 @@ def renderNode (c : RCtx) : Node → M Status
         let filename := joinPath (dirPath c.cfg.path) rel
         let (st, out) ← (fun s => (c.inc line filename env).bind (fun r => .ret (r, s)) : M (Status × Bytes))
         (match st with
-         | .done => do writeM out; pure .done
+         | .done => do writeVerbatimM out; pure .done   -- the tag's writer is `verbatimWriter{w}`
          | st => pure st)
       | _ => M.fail (.located (errorfAt loc .includeArg)))             -- "include requires a string argument"
 def renderList (c : RCtx) : List Node → M Status
